@@ -71,7 +71,14 @@ def gen(rs: int, tier: str, index: int) -> dict:
         s["config"]["workers"] = 1
         s["config"]["ackable"] = False
         s["config"]["middlewares"] = [mw for mw in s["config"]["middlewares"] if mw.get("retry") is None]
-        s["ops"] = []
+        s["ops"] = [op for op in s["ops"] if op.get("op") == "gc"]
+        if not s["ops"] and r.random() < 0.4:
+            # garbage collections while executions started by kick() wait on futures only they reference
+            for m in s["messages"]:
+                for a in m.get("attempts", []):
+                    if r.random() < 0.6:
+                        a["weak_wait"] = True
+            s["ops"] = [{"op": "gc", "after": ["fn_enter", r.randint(1, max(1, len(s["messages"])))], "plus_us": r.choice([0, 1, 50, 1000])} for _ in range(r.randint(1, 2))]
         for m in s["messages"]:
             m.pop("net", None)
             m["kind"] = "valid"
@@ -80,6 +87,8 @@ def gen(rs: int, tier: str, index: int) -> dict:
             if "task" not in m:
                 m["task"] = 0
                 m["attempts"] = [{"steps": [0], "out": ["ret"]}]
+    from ._wcommon import maybe_cli_entry
+    maybe_cli_entry(s, index, 7, 3)
     return s
 
 
